@@ -27,7 +27,8 @@ def describe(c):
 def run(run, replay=None):
     rng = random.Random(run.seed)
     quick = run.tier == 'quick'
-    _rcommon.mc_reader(run, ['Total', 'ErrRange', 'PosOK'], props=('Progress', 'Terminates'), quick=(3, 4), thorough=(5, 5), fair=True)
+    _rcommon.mc_reader(run, ['Total', 'ErrRange', 'PosOK'], props=('Progress',), quick=(3, 4), thorough=(5, 5))
+    _rcommon.mc_reader(run, ['Total'], props=('Terminates',), quick=(2, 3), thorough=(3, 4), fair=True)
     cat = Catalog()
     bases = []
     paths = _rcommon.legal_paths(run, 7)
